@@ -32,10 +32,13 @@ def product_configs(expl, tier, models=('scalar', 'multi'), wide=False):
         imputers = ['joint', 'product', 'default']
         names = ['str', 'int']
     out = []
+    models = tuple(models) + (('swap',) if 'multi' in models else ())
     for dyn, a, n, d, st, im, nm, model in itertools.product(
             [False, True], alphas, ninner, [1, 2, 3], storages, imputers, names, models):
         if not dyn and a != alphas[0]:
             continue            # alpha is irrelevant in the static mode
+        if model == 'swap' and (im != 'joint' or nm != names[0]):
+            continue            # label-swapping model: joint imputer / first name type only
         if expl == 'sage':
             for lbib in (False, True):
                 out.append(dict(expl='sage', dynamic=dyn, alpha=a, n_inner=n, d=d, storage=st, imputer=im,
@@ -181,6 +184,12 @@ def stream_driver(cfg, T, make_oracle, alpha_size=3, options=False):
         h = Harness(cfg)
         letters = alphabet(h.names, cfg.get('model', 'scalar'), alpha_size)
         oracle = make_oracle(cfg, h)
+        if options and run.choose(2, 'warm-start-storage', None, 1):
+            # the storage is filled through the public update_storage before the first explain_one; the first
+            # explain_one must still only seed (count) and not explain
+            xp, yp = letters[-1]
+            h.expl.update_storage(dict(xp), yp)
+            h.prefilled = True
         for t in range(T):
             i = run.choose(len(letters), 'obs', None, 0)
             x, y = letters[i]
